@@ -412,7 +412,7 @@ def check(src, rep):
             if fn is None:
                 continue
             tv = Typed(T, {k: set(v) for k, v in ptypes.items()}, consts)
-            E = Engine(M, inline_depth=0)
+            E = Engine(M, inline_depth=0, split_ifexp=True)
             W = Walker(E, fn)
             loops = []
             ends = W.walk(fn.node.body, [Path()], loops)
